@@ -1,8 +1,6 @@
-(* C13 / C12(i): every input the engine gives to a plan is explained by the response recorded for
-   the message that plan yielded last - for all plans, devices and schedules.
-   The monitor (Engine/RespMon.v) is run on the per-event trace of the model; the proof couples the
-   monitor's state with the engine's two stacks (plans / resps) at every control point of the `_run`
-   loop ([dstep], RE_Small.v) and at every event. *)
+(* C13 / C12(i), part A: algebra of the response monitor (Engine/RespMon.v) and the facts about the
+   engine's helper functions the coupling proof (RE_RespB.v, RE_Resp.v) needs: they leave the two
+   stacks alone and emit only observations the monitor does not interpret. *)
 From Coq Require Import List String ZArith Bool Arith Lia.
 From BV Require Import Engine.RE Engine.REInst Engine.RespMon Proofs.RE_Small.
 Import ListNotations.
@@ -425,3 +423,8 @@ Proof.
 Qed.
 
 End Proofs.
+
+Arguments same_stacks {P D}.
+Arguments HQ {P D}.
+Arguments HQ2 {P D}.
+Arguments eqv {P D}.
